@@ -81,6 +81,7 @@ type ClientSpec struct {
 	WFault    []world.WriteFault `json:"wfault,omitempty"`
 	Real      bool               `json:"real,omitempty"`      // ops run through tacquito.Client
 	ReusePkt  bool               `json:"reuse_pkt,omitempty"` // Real: the caller refills one packet object for every request
+	EOFData   bool               `json:"eof_data,omitempty"`  // the transport returns the stream's last bytes together with io.EOF
 	Proxy     bool               `json:"proxy,omitempty"`     // every packet is preceded by an HA-proxy ASCII line
 	Scripted  bool               `json:"scripted,omitempty"`  // bytes reach the server only through this client's pace ops (segmentation by script, not by tape)
 	// SrvScript: for Real clients talking to a model server: replies the model server
